@@ -343,7 +343,7 @@ theorem inv_env {s0 : St} {s s' : Shared} {pre post : List Thread} {rs : List Na
         have h2 : histOuts (s.hist ++ [(none, .crash s.cp, (step s.base (.crash s.cp)).2), (none, .new i, .ok)])
             = histOuts s.hist ++ [(step s.base (.crash s.cp)).2, .ok] := by simp [histOuts]
         rw [h1, h2, run_append, hi.run]
-        simp only [Seq.run, List.append_nil]
+        simp only [Seq.run]
         have hab' : abandon s.st = abandon (step s.base (.crash s.cp)).1 := hab
         have : (step (step s.base (.crash s.cp)).1 (.new i)) = ((step s.st (.new i)).1, .ok) := by
           rw [step_new, step_new, hab']
